@@ -209,14 +209,20 @@ func unmarshalIQ(ctx context.Context, iq xml.TokenReader, v interface{}, s *Sess
 	}
 	payload := xmlstream.Inner(resp)
 	d := xml.NewTokenDecoder(payload)
-	startTok, err := d.Token()
-	switch err {
-	case io.EOF:
-		return nil
-	case nil:
-	default:
-		return err
+	// Decode the first child element of the response. Anything a peer puts in
+	// front of it that is not an element (whitespace, other character data) is
+	// skipped, like the iterator based helpers do.
+	for {
+		startTok, err := d.Token()
+		switch err {
+		case io.EOF:
+			return nil
+		case nil:
+		default:
+			return err
+		}
+		if payloadStart, ok := startTok.(xml.StartElement); ok {
+			return d.DecodeElement(v, &payloadStart)
+		}
 	}
-	start = startTok.(xml.StartElement)
-	return d.DecodeElement(v, &start)
 }
